@@ -210,6 +210,22 @@ def directed():
                     D(b"web", [g], [b"/"], b"td:80"), D(b"docs", wh[:1], [b"/"], b"te:80"), D(b"web", wh[:1], [b"/"], b"tf:80")])
     out.append([D(b"web", [h, g], [b"/"], b"ta:80"), D(b"api", [g], [b"/api"], b"tb:80"), {"op": "remove", "name": b"web"},
                 D(b"docs", [g], [b"/api"], b"tc:80"), D(b"docs", [h], [b"/"], b"td:80"), D(b"docs", [g], [b"/"], b"te:80")])
+    # a host listed twice by one service; the no-host default owned by another one, released, claimed again: a refusal needs a
+    # real owner, a success needs the pair free (corr/C05cmd.c05_refusal_ok)
+    out.append([D(b"catch", [], [b"/"], b"ta:80"), D(b"web", [h, h], [b"/"], b"tb:80"), D(b"api", [g], [b"/"], b"tc:80"),
+                {"op": "remove", "name": b"api"}, D(b"docs", [], [b"/"], b"td:80"), {"op": "remove", "name": b"catch"},
+                D(b"docs", [], [b"/"], b"te:80"), D(b"api", [h], [b"/"], b"tf:80"), {"op": "remove", "name": b"web"}, D(b"api", [h], [b"/"], b"tg:80")])
+    # a service with two hosts and three (five) prefixes next to a service with a longer prefix on one of those hosts; the index is
+    # rebuilt again and again (whatever order the rebuild visits the services in) and every pair stays owned: an intruder claiming
+    # any of them is refused each time
+    for prefs in ([b"/api", b"/app", b"/web"], [b"/a", b"/bb", b"/ccc", b"/dddd", b"/web"]):
+        hist = [D(b"shop", [h, g], prefs, b"ta:80"), D(b"admin", [h], [b"/admin"], b"tb:80")]
+        for k in range(5):
+            hist.append(D(b"admin", [h], [b"/admin"], b"tb%d:80" % k))
+            for hh in (h, g):
+                for pp in (prefs if len(prefs) == 3 else prefs[k % 2::2]):
+                    hist.append(D(b"intruder", [hh], [pp], b"tx:80"))
+        out.append(hist)
     return out
 
 
@@ -218,4 +234,4 @@ def run(tier, seed):
         "C05", tier, seed, ["C05.v", "C05conc.v", "C05cmd.v", "M4link.v"], ["props/C05.vo", "props/C05conc.vo", "props/C05cmd.vo", "props/M4link.vo"],
         profile={"deploy": 14, "deploy_fail": 2, "remove": 5, "restart": 2, "rollout_deploy": 1, "rollout_set": 0,
                  "rollout_stop": 0, "pause": 1, "stop": 1, "resume": 1},
-        monitor="c05_ok h && c05_cmd_ok h", n_quick=40, n_thorough=600, extra=both, fixed=directed())
+        monitor="c05_ok h && c05_cmd_ok h && c05_refusal_ok h", n_quick=40, n_thorough=600, extra=both, fixed=directed())
